@@ -16,6 +16,38 @@ from farm import Farm, Case
 from genlib import gen_request, generate
 
 
+def conditional_pack():
+    """Operations whose fields (and, last three, fragments) carry `@skip` / `@include`: a conforming server
+    leaves those keys out, depending on the variables - whatever the field's schema type says."""
+    from gql import Field, Inline, Spread, FragDef, Op, Doc, TN
+    S, I = [("skip", "s")], [("include", "t")]
+    V = [("s", "Boolean!", None), ("t", "Boolean!", None)]
+    lib = space.fragment_library()
+
+    def q(sel, frags=()):
+        return Doc(list(frags) + space.used_fragments(list(sel) + [x for f in frags for x in f.sel], lib) + [Op("query", "Op", sel, V)])
+    P = []
+    P.append(("non-null scalar / list of objects", q([Field("me", [Field("id"), Field("name", directives=S),
+                                                                      Field("friends", [Field("name")], directives=I)])])))
+    P.append(("ID, nullable ID, enum, ID list", q([Field("me", [Field("id", directives=S), Field("extId", directives=I), Field("role", directives=S),
+                                                                   Field("aliases", directives=S), Field("active")])])))
+    P.append(("inside variants", q([Field("node", [TN(), Field("id", directives=S),
+                                                    Inline("User", [Field("name", directives=S), Field("age", directives=I)]),
+                                                    Inline("Org", [Field("kind", directives=S), Field("memberIds", directives=I), Field("name")])])])))
+    P.append(("root fields", q([Field("version", directives=S), Field("count", directives=I), Field("grid", directives=S), Field("ids", directives=I),
+                                Field("me", [Field("id")], directives=S), Field("nodes", [TN(), Field("id")], directives=I)])))
+    P.append(("inside a named fragment", q([Field("me", [Field("id"), Spread("CondU")])],
+                                           [FragDef("CondU", "User", [Field("name", directives=S), Field("active", directives=I)])])))
+    P.append(("list of unions", q([Field("things", [TN(), Inline("Cat", [Field("name", directives=S), Field("lives")]),
+                                                     Inline("User", [Field("friends", [Field("name", directives=I)], directives=S)])])])))
+    P.append(("aliases", q([Field("me", [Field("name", alias="n", directives=S), Field("active", alias="a", directives=I), Field("id")])])))
+    P.append(("both directives on one field", q([Field("me", [Field("id"), Field("name", directives=S + I)])])))
+    P.append(("conditional spread", q([Field("me", [Field("id"), Spread("UserB", directives=I)])])))
+    P.append(("conditional inline fragment in a variant position", q([Field("node", [TN(), Inline("User", [Field("name")], directives=S)])])))
+    P.append(("conditional spread on a union", q([Field("thing", [TN(), Spread("CatF", directives=I)])])))
+    return P
+
+
 def prepare(tier, schema, farm_name, options=None, want_docs=None):
     """Generate + compile the operation space. Returns (farm, entries) where each entry is a dict
     with focus, labels, doc, query text, validity, generator status and farm case id."""
@@ -38,6 +70,10 @@ def prepare(tier, schema, farm_name, options=None, want_docs=None):
             for dname, doc in docs:
                 entries.append({"focus": "lattice " + "+".join(fs), "labels": [dname], "doc": doc, "query": gql.render_doc(doc),
                                 "errs": gql.validate(sch, doc), "schema": sch, "schema_name": "lattice " + "+".join(fs)})
+    if want_docs is None:
+        for dname, doc in conditional_pack():
+            entries.append({"focus": "conditional", "labels": [dname], "doc": doc, "query": gql.render_doc(doc),
+                            "errs": gql.validate(schema, doc), "schema": schema, "schema_name": "CORE"})
     if want_docs is None and options is None:
         # the same operations under a second option set (the property is not conditional on options): Rust
         # normalization, other-variant, skip-none - for the lattice pack and every single-item operation
